@@ -382,10 +382,10 @@ def judge_case(ctx, case, R, M):
     scope = dynamics_in_scope(case)
     for i, st in enumerate(case.get("states", [])):
         one = dict(sub, states=[st])
-        if cov and not zero_label_init(case):
+        if cov:
             # RHS of the labelled model: real vs Lean model (drift check only)
             ctx.judge(one, R["rhs"][i], R["rhs"][i], None if M is None else M["rhs"][i], what="labelled RHS real vs model")
-        if scope and "ok" in R["rhs"][i] and not zero_label_init(case):
+        if scope and "ok" in R["rhs"][i]:
             ctx.judge(one, R["sums"][i], R["base_rhs"][i], None if M is None else M["sums"][i],
                       finding=F_HOMODIMER if nd else None, what="summed isotopomer derivatives vs base derivative at totals")
 
@@ -578,8 +578,7 @@ def setup(ctx):
 def run_cases(ctx, cases, rng):
     for c in cases:
         if "states" not in c:
-            # (the stray variable of F-C05-2 has no place in a state: structure and initial state only)
-            c["states"] = [] if zero_label_init(c) else gen_states(rng, c)
+            c["states"] = gen_states(rng, c)
     B = 400
     for i in range(0, len(cases), B):
         chunk = cases[i:i + B]
